@@ -306,7 +306,14 @@ def dataset_like(sample_dataset: xarray.Dataset, new_dataset: xarray.Dataset) ->
     _update_no_clobber(sample_dataset.encoding, like_dataset.encoding)
     for key, sample_variable in sample_dataset.variables.items():
         new_variable = like_dataset.variables[key]
-        _update_no_clobber(sample_variable.attrs, new_variable.attrs)
+        # A sample opened with mask_and_scale=False keeps _FillValue or
+        # missing_value in its attributes. If xarray has decoded the new
+        # variable these live in the encoding instead. Copying the attribute
+        # as well would make a variable that xarray refuses to save.
+        _update_no_clobber({
+            name: value for name, value in sample_variable.attrs.items()
+            if name not in new_variable.encoding
+        }, new_variable.attrs)
         _update_no_clobber(sample_variable.encoding, new_variable.encoding)
 
     # Done!
